@@ -386,6 +386,21 @@ func init() {
 	}
 }
 
+func init() {
+	// the retention period grows while the cleaner sleeps: it must clear with the period in force when it
+	// wakes up, not with the one it went to sleep with
+	sandboxHandlers["rc.cleaner2"] = func(a []string) string {
+		service.GetReplayCache(300 * time.Millisecond)
+		time.Sleep(100 * time.Millisecond) // the cleaner is asleep for 300 ms now
+		rc := service.GetReplayCache(5 * time.Second)
+		au := rcAuth(1, time.Now().Add(-time.Second)) // 1 s old: inside the 5 s skew, outside 300 ms
+		r1 := rc.IsReplay(rcSvc(0), au)
+		time.Sleep(350 * time.Millisecond) // the cleaner has woken up once
+		r2 := rc.IsReplay(rcSvc(0), au)
+		return fmt.Sprintf("%s %s", B(r1), B(r2))
+	}
+}
+
 // c02Cleaner: the background cleaner must not purge an authenticator that the service which accepted
 // it would still accept (history: a service with a small skew creates the cache first).
 func c02Cleaner(t *testing.T, v *Verdict) {
@@ -393,6 +408,13 @@ func c02Cleaner(t *testing.T, v *Verdict) {
 	defer sb.Close()
 	ans := sb.Call("rc.cleaner", 20*time.Second)
 	v.Case("cleaner/first-caller-small-skew", "cleaner")
+	sb2 := StartSandbox(t)
+	defer sb2.Close()
+	ans2 := sb2.Call("rc.cleaner2", 20*time.Second)
+	v.Case("cleaner/skew-raised-during-sleep", "cleaner")
+	if ans2 != "0 1" {
+		v.Violate("failing-input", "c02:cleaner:raised-during-sleep", "a service with a 5 s skew registered while the cleaner (started for a 300 ms skew) was asleep; an authenticator 1 s old that it accepted is accepted again after the cleaner's next wake-up", map[string]string{"results": ans2})
+	}
 	if ans != "0 1" {
 		v.Violate("failing-input", "c02:cleaner:first-caller-skew", "an authenticator accepted by a service with a 3 s skew is accepted again 200 ms later because the cleaner was started by a service with a 40 ms skew", map[string]string{"results": ans})
 	}
